@@ -48,3 +48,21 @@ func TestExchange(t *testing.T) {
 		return nil
 	})
 }
+
+// TestCorpus runs the same executor on packages regenerated from the repository corpus
+// (time formats other than date-time cannot be told apart by reflection there: time.Time
+// leaves are generated at whole seconds, and documents with date/time formats may
+// legitimately report non-delivery, which the executor tolerates for invalid values only —
+// see the corpus note in checks.d).
+func TestCorpus(t *testing.T) {
+	u := vk.New(t, "C01", "corpus-specs")
+	defer u.Close()
+	if vk.InReplay() {
+		return
+	}
+	specs := c01x.CorpusSpecs(vk.N(120_000, 700_000))
+	const per = 6
+	for i := 0; i < len(specs); i += per {
+		c01x.RunBatchOut(u, fmt.Sprintf("corpus%d", i), specs[i:min(i+per, len(specs))], "Run", false)
+	}
+}
